@@ -13,7 +13,7 @@ from typing import Any, Callable, Dict, List, Optional, Tuple
 
 from . import terms as T
 from .progdb import AnalysisError, Module, ProgramDB, walk_no_nested
-from .values import (Columns, ClassRef, Each, EnumRef, ExtMod, Frame, FuncRef, GenCall, GroupBy, Obj, PyTuple, Ser, to_term)
+from .values import (Columns, ClassRef, Each, EnumRef, ExtMod, Frame, FuncRef, GenCall, GroupBy, GuardedSeq, Obj, PyTuple, Ser, to_term)
 
 EXT_MODULES = {"pd": "pd", "pandas": "pd", "np": "np", "numpy": "np", "math": "math", "nx": "nx", "networkx": "nx",
                "re": "re", "os": "os", "json": "json", "gzip": "gzip", "time": "time", "sys": "sys", "logging": "logging",
@@ -840,12 +840,12 @@ class Interp:
         return self._comp(e, "set")
 
     def ex_GeneratorExp(self, e):
-        return self._comp(e, "list")
+        return self._comp(e, "list", lazy=True)
 
     def ex_DictComp(self, e):
         return self._comp(e, "dict")
 
-    def _comp(self, e, kind):
+    def _comp(self, e, kind, lazy=False):
         gen = e.generators[0]
         it = self.eval(gen.iter)
         if isinstance(it, GenCall):
@@ -857,6 +857,7 @@ class Interp:
         try:
             if seq is not None and len(seq) <= 32:
                 out_l, out_d = [], {}
+                guarded = []          # generator expression with a symbolic filter: (condition, value) per element
                 for v in seq:
                     self.assign(gen.target, v, e)
                     conds = [self.truth(self.eval(c)) for c in gen.ifs]
@@ -868,13 +869,21 @@ class Interp:
                         if len(seq) <= 6 and not T.has_opaque(c) and self.user_decide is not None:
                             if not self.decide(c, e):
                                 continue
+                        elif lazy and kind == "list" and len(seq) <= 8 and not T.has_opaque(c):
+                            guarded.append((c, self.eval(e.elt)))
+                            continue
                         else:
                             seq = None
                             break
+                    if guarded:
+                        guarded.append((T.TRUE, self.eval(e.elt)))
+                        continue
                     if kind == "dict":
                         out_d[self._hashable(self.eval(e.key))] = self.eval(e.value)
                     else:
                         out_l.append(self.eval(e.elt))
+                if seq is not None and guarded:
+                    return GuardedSeq([(T.TRUE, x) for x in out_l] + guarded)
                 if seq is not None:
                     if kind == "dict":
                         return out_d
